@@ -6,6 +6,7 @@ sent to `Model/Api.lean` (`toDict` / `parseSettings` / `Kind.ofName` / `loadPara
 """
 from __future__ import annotations
 
+import copy
 import json
 import os
 import shutil
@@ -21,17 +22,46 @@ LEAN = dict(
     props="LeaspyVerif.Props.C12",
     driver="drivers/C12.lean",
     harness="c12_saveload.py",
-    extra_modules=["LeaspyVerif.Model.Api"],
+    extra_modules=["LeaspyVerif.Model.Api", "LeaspyVerif.Model.Codec", "LeaspyVerif.Lemmas.Codec"],
     theorems=["fit_end_prior_mode", "pop_prior_mode_invariant", "load_pop_prior_mode", "roundtrip_params",
               "roundtrip_resave_identical", "roundtrip_any_name_counterexample", "roundtrip_any_name_partial",
-              "load_unknown_name", "resave_double_precision_counterexample"],
+              "load_unknown_name", "resave_double_precision_counterexample",
+              # tensor <-> nested list codec
+              "tolist_sizes", "tensor_reload_closed_form", "tensor_roundtrip_iff", "tensor_roundtrip_zero_axis_counterexample",
+              "tensor_reload_double_narrows", "tensor_reload_double_counterexample", "view_reload",
+              "scalar_parameter_gets_an_axis", "resave_stable",
+              # file-level dictionary
+              "load_toDict", "load_toDict_identity", "resave_identical", "reloaded_canonical", "resave_stable_after_one_round",
+              "load_toDict_unknown_name", "load_mandatory_keys", "load_toDict_features_null", "toDict_reads_live_state",
+              "initialized_hypWf", "paramSpec_agrees_with_api", "resave_scalar_noise_counterexample",
+              "load_toDict_any_name_counterexample", "unknown_key_ignored_counterexample", "unknown_key_refused_iff",
+              "stale_mixing_matrix_accepted_counterexample", "load_ignores_version_and_hyperparameters"],
     trusted_extra=[
-        "json round-trips python floats exactly; file equality is modelled as equality of the modelled fields (name, features, dimension, source_dimension, noise structure, nb_events, n_clusters, parameters) — the hyperparameters block and the derived mixing_matrix entry are compared on the real files only",
-        "float32 narrowing: Lean `roundF32` (exact, on rationals) is compared with torch on every parameter value seen",
+        "text layer of the file (not modelled): json.dump(indent=2) writes a python int in decimal, a float by float.__repr__ (shortest string "
+        "that parses back to the same double; NaN / Infinity tokens), keys in insertion order, and json.load inverts it; so the text is an "
+        "injective function of the tree and byte equality of files is equality of trees. Checked on every file of every run "
+        "(json.dumps(json.loads(text), indent=2) == text) and, for tensors, through the decimal text (tolist -> dumps -> loads -> torch.tensor)",
+        "float32 narrowing: Lean `narrow32` (exact on rationals, ties to even, sub-normals, overflow to inf, signed zero) is compared with torch "
+        "over the whole double range; the theorems use only `narrow x = x` for float32 values (part of `wf`) and idempotence (`hidem`), both "
+        "checked on the implementation",
+        "Hyperparameter nodes of the DAG and the derived mixing_matrix are externals of the file model (`Ext.hyper`, `Ext.mixing`): their values "
+        "are read from the real objects and passed to the model; what the model fixes is where they are written, that the mixing matrix comes "
+        "from the live population variables, and that `load` converts but never compares them",
+        "DAG metadata for non-parameter entries of a parameters block (node exists / computable on a loaded model / has a shape attribute / "
+        "current shape) is read from the real DAG and passed to the model (`Other`)",
         "external kernels of part (c) (SAEM, samplers) are uninterpreted; the end-of-fit theorem is about where their output is stored",
+        "the older field-level model (Model/Api.lean b) is kept: `roundF32` there has no sub-normals / overflow and is compared with torch on "
+        "every parameter value seen",
     ],
-    assumptions=["LME and constant models have their own save/load and are outside this model",
-                 "sub-normal / overflowing float32 values are not generated"],
+    assumptions=["LME and constant models have their own save/load and are outside this model (`Err.outside`)",
+                 "python's float repr/parse round trip (float(repr(x)) == x bitwise for every double) and insertion-ordered dicts",
+                 "integers converted to float32 by torch.tensor go through a double: exact below 2^53, larger ints are generated only as powers "
+                 "of two; integer-typed values are only put into parameters that do not feed the mixing matrix (whether a derived value is "
+                 "computable from int64 inputs depends on torch kernels)",
+                 "file keys that reach a constructor as keywords but are never written by to_dict (`variables_to_track`, `initialization_method`, a "
+                 "second `Name`), python bools as dimensions, lists as obs_models, non-string feature names: declared outside by the model "
+                 "(`Err.outside`), not generated, counted in `outside_model_domain` if they ever occur",
+                 "json.load yields unique keys (python dict); duplicate keys after lower-casing are resolved last-wins as ModelSettings does"],
 )
 
 NAMES_OK = ["{kind}", "{KIND}", "{Kind}"]
@@ -98,7 +128,8 @@ def gen_fit_case(rng, kinds):
     rename = rng.random() < 0.4
     return dict(src="fit", kind=kind, which=which, d=d, s=s, noise=noise, rename=rename, name=pick_name(rng, kind),
                 give_dim=rng.random() < 0.5, n_iter=rng.randrange(5, 11), n_burn=rng.randrange(0, 4), seed=rng.randrange(1000),
-                hyp=dict(n_clusters=2) if kind == "mixture_logistic" else {})
+                hyp=dict(n_clusters=2) if kind == "mixture_logistic" else {},
+                refit=(rng.randrange(3, 6) if rng.random() < 0.25 else None))
 
 
 def random_parameters(E, rng_seed, model):
@@ -149,7 +180,9 @@ def build_model(E, case):
         m.load_parameters(random_parameters(E, case["pseed"], m))
         m._is_initialized = True          # what BaseModel.load does after load_parameters
         if case.get("rewrite") is not None:
-            # parameters written by hand on an object that already holds population variables
+            # parameters written by hand on an object that already holds population variables; the object is *read*
+            # through its public accessors in between (a reader must not freeze what a later save writes)
+            _ = (m.parameters, m.hyperparameters, m.to_dict())
             m.load_parameters(random_parameters(E, case["rewrite"], m))
         return m, None
     which = case["which"]
@@ -169,6 +202,10 @@ def build_model(E, case):
         # a short memory-less phase, so that the final parameters are averages and differ from the last realisations
         m.fit(data, "mcmc_saem", n_iter=case["n_iter"], seed=case["seed"], progress_bar=False,
               n_burn_in_iter=case.get("n_burn", max(0, case["n_iter"] // 3)))
+        if case.get("refit"):
+            # the fitted object is read (parameters, to_dict), then fitted some more: the file must hold the final state
+            _ = (m.parameters, m.hyperparameters, m.to_dict())
+            m.fit(data, "mcmc_saem", n_iter=case["refit"], seed=case["seed"] + 1, progress_bar=False, n_burn_in_iter=1)
     return m, (df, data)
 
 
@@ -217,7 +254,7 @@ def float_diff_is_f32_narrowing(E, a, b):
     return False
 
 
-def run_case(chk, E, case, tmp):
+def run_case(chk, E, case, tmp, FC=None, bases=None):
     """One model: property predicate on the implementation + canonical observation for the Lean comparison.
     Returns (request line or None, implementation answer or None)."""
     torch = E.torch
@@ -273,6 +310,8 @@ def run_case(chk, E, case, tmp):
         chk.impl_failure(cj, f"saved model cannot be loaded: {type(e).__name__}: {str(e)[:120]}",
                          finding="F7" if in_f7 else ("F22" if in_f18 else ("F23" if in_f19 else None)))
         tags["outcome"] = ec
+        if FC is not None:
+            file_level(chk, E, FC, case, m, p1, None, None, tmp)
         chk.case(("rt", kind, case["name"], case.get("d"), case.get("s"), case.get("noise"), ec), tags=tags,
                  sample={k: v for k, v in case.items()} if len(chk.samples) < 2 else None)
         return req, ec
@@ -351,6 +390,10 @@ def run_case(chk, E, case, tmp):
     m2.save(p2)
     b1, b2 = open(p1, "rb").read(), open(p2, "rb").read()
     j2 = json.load(open(p2))
+    if FC is not None:
+        file_level(chk, E, FC, case, m, p1, m2, p2, tmp)
+        if bases is not None and name_is_kind and j1.get("features") is not None and not double_params:
+            bases.append(j1)
     with core.quiet():
         m3 = E.BaseModel.load(p2)
     m3.save(p3)
@@ -530,6 +573,40 @@ def probe_findings(chk, E, tmp):
         chk.note(f"F21 probe could not run: {type(e).__name__}")
 
 
+def probe_f30(chk, E, tmp):
+    """F30 witness: a valid file whose mixing_matrix is overwritten with other values. Decides which of the two
+    behaviours (`Other.asserts`) the model is run with; while the entry says commit PENDING the shipped behaviour is
+    tolerated, afterwards it is a regression."""
+    case = dict(src="random", kind="logistic", d=3, s=1, noise="gaussian-diagonal", feats=["A", "B", "C"], hyp={}, name="logistic", pseed=11)
+    entry = next((f for f in chk.findings if f["id"] == "F30"), None)
+    try:
+        m, _ = build_model(E, case)
+        p = os.path.join(tmp, "f30.json")
+        m.save(p)
+        j = json.load(open(p))
+        j["parameters"]["mixing_matrix"] = [[5.0, 5.0, 5.0]]
+        with open(p, "w") as fp:
+            json.dump(j, fp)
+        try:
+            with core.quiet():
+                m2 = E.BaseModel.load(p)
+            mm = m2.to_dict()["parameters"]["mixing_matrix"]
+            ASSERTS_EFFECTIVE[0] = False
+            text = (f"a saved logistic model with parameters.mixing_matrix overwritten by [[5,5,5]] loads without complaint and re-saves "
+                    f"{[[round(x, 4) for x in r] for r in mm]}: the assertions of load_parameters are on non-empty tuples")
+            chk.known_finding_reproduces("F30", text)
+            if entry is None or entry.get("status") == "finding" or entry.get("commit") == "PENDING":
+                chk.note("F30: repair not applied to this tree (fixes/F30.patch); the model is run with the shipped behaviour (Other.asserts = false)")
+            else:
+                chk.impl_failure({"kind": "f30-probe"}, "F30 is back: " + text, finding="F30")
+        except AssertionError:
+            ASSERTS_EFFECTIVE[0] = True
+            chk.note("F30 repaired in this tree: the model is run with effective assertions (Other.asserts = true)")
+    except Exception as e:
+        ASSERTS_EFFECTIVE[0] = False
+        chk.note(f"F30 probe could not run: {type(e).__name__}: {str(e)[:80]}")
+
+
 def collect_side(E, case, req, values, specs, names):
     names.append(case["name"])
     if req is None:
@@ -556,6 +633,695 @@ def real_spec(E, kind, d, s, noise, K, Ev):
     return out
 
 
+
+# ====================================================================================== codec layer (Model/Codec.lean)
+def codec_err(e: BaseException) -> str:
+    """canonical error classes of the codec model (most specific first: the leaspy classes derive from ValueError)"""
+    Er = A.env().errs
+    if isinstance(e, Er["model"]):
+        return "err:model"
+    if isinstance(e, (Er["input"],)):
+        return "err:input"
+    for cls, name in ((AssertionError, "assertion"), (KeyError, "key"), (AttributeError, "attribute"), (NotImplementedError, "notimplemented"),
+                      (ValueError, "value"), (TypeError, "type"), (RuntimeError, "runtime")):
+        if isinstance(e, cls):
+            return "err:" + name
+    return f"err:other:{type(e).__name__}"
+
+
+def hexs(s: str) -> str:
+    return s.encode("utf-8").hex()
+
+
+def fl_tok(x: float, prefix: str) -> str:
+    """python float -> token (`R<rat>` / `r<rat>` or the special values)"""
+    import math
+    X = "X" if prefix == "R" else "x"
+    if math.isnan(x):
+        return X + "nan"
+    if math.isinf(x):
+        return X + ("inf" if x > 0 else "ninf")
+    if x == 0 and math.copysign(1.0, x) < 0:
+        return X + "nz"
+    return prefix + fmt_rat(Fraction(x))
+
+
+def tree_tokens(v, out: list):
+    """json.load result -> canonical token stream (key order kept; bool before int: bool is an int in python)"""
+    if v is None:
+        out.append("N")
+    elif v is True:
+        out.append("T")
+    elif v is False:
+        out.append("F")
+    elif isinstance(v, int):
+        out.append(f"I{v}")
+    elif isinstance(v, float):
+        out.append(fl_tok(v, "R"))
+    elif isinstance(v, str):
+        out.append("S" + hexs(v))
+    elif isinstance(v, (list, tuple)):
+        out.append("[")
+        for w in v:
+            tree_tokens(w, out)
+        out.append("]")
+    elif isinstance(v, dict):
+        out.append("{")
+        for k, w in v.items():
+            out.append("S" + hexs(str(k)))
+            tree_tokens(w, out)
+        out.append("}")
+    else:
+        raise TypeError(f"not a json value: {type(v).__name__}")
+    return out
+
+
+def tree_str(v) -> str:
+    return ",".join(tree_tokens(v, []))
+
+
+DTYPES = ["bool", "int32", "int64", "float16", "float32", "float64"]
+
+
+def tensor_tok(t) -> str:
+    """tensor -> `<dtype>:<shape>:<elems>` (logical row-major order of the view)"""
+    torch = A.env().torch
+    t = t.detach().cpu()
+    dt = str(t.dtype).replace("torch.", "")
+    flat = t.reshape(-1).tolist() if t.numel() else []
+    if dt == "bool":
+        el = ["b1" if x else "b0" for x in flat]
+    elif dt.startswith("int"):
+        el = [f"i{x}" for x in flat]
+    else:
+        el = [fl_tok(float(x), "r") for x in flat]
+    return f"{dt}:{A.fmt_shape(tuple(t.shape))}:{fmt_list(el)}"
+
+
+def named_tok(d: dict) -> str:
+    torch = A.env().torch
+    return fmt_list([f"{k}~{tensor_tok(torch.as_tensor(v))}" for k, v in d.items()], sep=";")
+
+
+def same_tensor_bits(torch, a, b) -> bool:
+    if a.dtype != b.dtype or tuple(a.shape) != tuple(b.shape):
+        return False
+    if a.numel() == 0:
+        return True
+    if a.dtype.is_floating_point:
+        a64, b64 = a.double(), b.double()
+        return bool((((a64 == b64) & (torch.signbit(a64) == torch.signbit(b64))) | (torch.isnan(a64) & torch.isnan(b64))).all())
+    return bool((a == b).all())
+
+
+def gen_tensor(rng, torch):
+    depth = rng.choice([0, 0, 1, 1, 1, 2, 2, 3, 4])
+    shape = tuple(rng.choice([0, 1, 1, 2, 2, 3]) if rng.random() < 0.9 else 4 for _ in range(depth))
+    n = 1
+    for k in shape:
+        n *= k
+    dt = rng.choice(DTYPES + ["float32", "float32", "float64"])
+    if dt == "bool":
+        vals = [rng.random() < 0.5 for _ in range(n)]
+    elif dt.startswith("int"):
+        big = 2 ** 31 - 1 if dt == "int32" else 2 ** 63 - 1
+        vals = [rng.choice([rng.randrange(-9, 10), rng.randrange(-big - 1, big + 1), big, -big - 1, 0]) for _ in range(n)]
+    else:
+        pool = {"float16": [0.0, -0.0, 1.0, 0.1, -2.5, 65504.0, 6e-8, float("inf"), float("nan")],
+                "float32": [0.0, -0.0, 1.0, 0.1, -2.5, 1e-42, 3.4e38, 1e-30, float("inf"), -float("inf"), float("nan"), 80.44985490161451],
+                "float64": [0.0, -0.0, 1.0, 0.1, -2.5, 1e-42, 1e-50, -1e-50, 3.4e38, 3.5e38, 1e300, -1e300, 5e-324, float("inf"), float("nan"),
+                            80.44985490161451, 3.4028235677973366e38, 3.4028235677973362e38]}[dt]
+        vals = [rng.choice([rng.gauss(0, 1), rng.gauss(0, 1) * 10 ** rng.randrange(-8, 9), rng.choice(pool)]) for _ in range(n)]
+    t = torch.tensor(vals, dtype=getattr(torch, dt)).reshape(shape)
+    view = "plain"
+    if len(shape) >= 2 and rng.random() < 0.35:
+        i, j = rng.sample(range(len(shape)), 2)
+        t = t.transpose(i, j)
+        view = "transposed"
+    elif len(shape) >= 1 and shape[0] >= 2 and rng.random() < 0.15:
+        t = t[::2]
+        view = "strided"
+    return t, view
+
+
+def gen_json_value(rng, depth=0):
+    """a json value as `parameters[...]` could hold it: mostly numbers and lists, sometimes ragged / mixed / wrong"""
+    r = rng.random()
+    if depth >= 4 or r < (0.25 if depth == 0 else 0.45):
+        return rng.choice([1, 2, -3, 0, 70, 0.5, -1.25, 0.1, 1e300, 2.0, True, False, 1.5, 2.5, 3, 4.0,
+                           None, "a", "", "ab", {}, {"a": 1}, 2 ** 63, -2 ** 63, 2 ** 62, float("nan")]
+                          if rng.random() < 0.25 else [1, 2, 3, 0.5, 1.5, -2.0, 0.1, True])
+    n = rng.choice([0, 1, 2, 2, 3])
+    if rng.random() < 0.7:
+        # regular: all items of one shape
+        proto = gen_json_value(rng, depth + 1)
+
+        def like(p):
+            if isinstance(p, list):
+                return [like(q) for q in p]
+            return rng.choice([p, 1, 0.5, 2, -1.5]) if isinstance(p, (int, float)) and not isinstance(p, bool) else p
+        return [like(proto) for _ in range(n)]
+    return [gen_json_value(rng, depth + 1) for _ in range(n)]
+
+
+def json_numel_shape(v):
+    """shape along first elements (what torch infers), or None"""
+    sh = []
+    while isinstance(v, list):
+        sh.append(len(v))
+        if not v:
+            break
+        v = v[0]
+    return sh
+
+
+def codec_tensor_cases(chk, E, n_tensors, n_values):
+    """(a) the tensor codec: real `tensor_to_list` / `val_to_tensor` against `toJson` / `valToTensor`"""
+    import math
+    from leaspy.models.utilities import tensor_to_list, val_to_tensor
+    torch, rng = E.torch, chk.rng
+    lines, meta = [], []
+    for _ in range(n_tensors):
+        t, view = gen_tensor(rng, torch)
+        cj = {"kind": "tensor", "tensor": tensor_tok(t), "view": view}
+        try:
+            lst = tensor_to_list(t)
+            back = val_to_tensor(json.loads(json.dumps(lst)))
+            back_ans = "ok " + tensor_tok(back)
+        except Exception as e:
+            chk.impl_failure(cj, f"tensor_to_list / json / val_to_tensor raised {type(e).__name__}: {e}")
+            continue
+        numel = t.numel()
+        dt = str(t.dtype).replace("torch.", "")
+        # the property on the implementation alone: single-precision / integer / boolean tensors with at least one
+        # element come back bit for bit through the decimal text (dtype, shape, values)
+        if numel > 0 and dt in ("float32", "int64", "bool") and not same_tensor_bits(torch, back, t.contiguous()):
+            chk.impl_failure(cj, f"{dt} tensor of shape {tuple(t.shape)} does not survive tolist -> json text -> torch.tensor")
+        if numel > 0 and dt == "float64":
+            want = t.contiguous().float()
+            if not same_tensor_bits(torch, back, want):
+                chk.impl_failure(cj, "float64 tensor does not come back as its float32 rounding")
+        stable = same_tensor_bits(torch, back, t.contiguous())
+        lines.append(f"codec tj t={tensor_tok(t)}")
+        meta.append(("tj", cj, tree_str(lst)))
+        lines.append(f"codec tt t={tensor_tok(t)}")
+        meta.append(("tt", cj, f"{tensor_tok(back)} stable={int(stable)} wf=1"))
+        lines.append(f"codec fj j={tree_str(lst)} view=none")
+        meta.append(("fj", cj, back_ans))
+        # reload under the shape the DAG would impose: any shape with the same number of elements
+        tgt = tuple(t.shape)
+        if numel > 0 and rng.random() < 0.5:
+            tgt = rng.choice([(numel,), (1, numel), (numel, 1), tuple(t.shape) + (1,), ()]) if numel > 1 else rng.choice([(), (1,), (1, 1)])
+        elif rng.random() < 0.2:
+            tgt = tuple(t.shape) + (2,)
+        try:
+            v = val_to_tensor(json.loads(json.dumps(lst)), tgt)
+            ans = "ok " + tensor_tok(v)
+        except Exception as e:
+            ans = codec_err(e)
+        lines.append(f"codec fj j={tree_str(lst)} view={A.fmt_shape(tgt)}")
+        meta.append(("fj", dict(cj, view_shape=list(tgt)), ans))
+        chk.case(("tensor", dt, tuple(t.shape), view), nontrivial=True, tags={"codec_dtype": dt, "codec_view": view,
+                 "codec_zero_axis": numel == 0, "codec_stable": stable})
+    for _ in range(n_values):
+        v = gen_json_value(rng)
+        sh = json_numel_shape(v)
+        n = 1
+        for k in sh:
+            n *= k
+        tgt = None
+        r = rng.random()
+        if r < 0.4:
+            tgt = rng.choice([(n,), (1, n), tuple(sh), (n, 1), tuple(sh) + (1,)]) if n > 0 else rng.choice([(0,), (0, 3), (1,)])
+        elif r < 0.5:
+            tgt = (n + 1,)
+        cj = {"kind": "value", "value": tree_str(v), "view": None if tgt is None else list(tgt)}
+        try:
+            out = val_to_tensor(v, tgt)
+            ans = "ok " + tensor_tok(out)
+        except Exception as e:
+            ans = codec_err(e)
+        lines.append(f"codec fj j={tree_str(v)} view={'none' if tgt is None else A.fmt_shape(tgt)}")
+        meta.append(("fj", cj, ans))
+        chk.case(("value", tree_str(v)[:80], tgt), nontrivial=True, tags={"codec_value_outcome": ans.split(" ")[0]})
+    # float32 narrowing over the whole range (sub-normals, overflow, signed zero, non-finite)
+    xs = [rng.gauss(0, 1) * 10.0 ** rng.randrange(-50, 45) for _ in range(300)] + [0.0, -0.0, 1e-45, 7e-46, 7.1e-46, -7e-46, 1.4e-45, 2.1e-45,
+          3.4028234663852886e38, 3.4028235677973366e38, 3.4028235677973362e38, 3.5e38, -3.5e38, 1e300, float("inf"), -float("inf"), float("nan"),
+          1.1754943508222875e-38, 1.1754942e-38, 5e-324, 0.1, 80.44985490161451]
+    for i in range(0, len(xs), 100):
+        chunk = xs[i:i + 100]
+        lines.append("codec n32 x=" + fmt_list([fl_tok(x, "r") for x in chunk]))
+        want = [fl_tok(float(y), "r") for y in torch.tensor(chunk, dtype=torch.float64).float().tolist()]
+        meta.append(("n32", {"kind": "n32", "values": [repr(x) for x in chunk[:5]]}, fmt_list(want)))
+        # idempotence, on the implementation
+        again = torch.tensor(chunk, dtype=torch.float64).float().double().float()
+        if not same_tensor_bits(torch, again, torch.tensor(chunk, dtype=torch.float64).float()):
+            chk.impl_failure({"kind": "n32"}, "float32 narrowing is not idempotent")
+    out = chk.model(lines)
+    for (what, cj, want), got in zip(meta, out):
+        if got != want:
+            chk.disagree(cj, want, got, {"tj": "Tensor.tolist nesting", "tt": "torch.tensor(t.tolist()) closed form / stability guard",
+                                         "fj": "val_to_tensor (sizes, dtype inference, values, view, error class)",
+                                         "n32": "double -> float32 narrowing"}[what])
+
+
+# ------------------------------------------------------------------------------ whole files
+def kind_of_model(m):
+    return {"LogisticModel": "logistic", "LinearModel": "linear", "SharedSpeedLogisticModel": "shared_speed_logistic",
+            "JointModel": "joint", "LogisticMultivariateMixtureModel": "mixture_logistic"}.get(type(m).__name__)
+
+
+def ext_tokens(E, m):
+    """externals of the file model: version, Hyperparameter values, derived mixing matrix — read from a real object"""
+    import leaspy
+    mix = "none"
+    if (getattr(m, "source_dimension", None) or 0) >= 1:
+        mix = tensor_tok(m.state["mixing_matrix"])
+    return f"ver={hexs(leaspy.__version__)} hyper={named_tok(m.hyperparameters)} mix={mix}"
+
+
+EXT_NONE = "ver=" + hexs("?") + " hyper=_ mix=none"
+
+
+def obj_tokens(E, m):
+    """the live object as `toDict` reads it"""
+    feats = "none" if m.features is None else fmt_list([hexs(str(f)) for f in m.features])
+    dimattr = "none" if m._dimension is None else str(m._dimension)
+    src = m.source_dimension
+    return (f"kind={kind_of_model(m)} name={hexs(m.name)} feats={feats} dimattr={dimattr} src={'none' if src is None else src} "
+            f"noise={m.obs_models[0].to_string()} fm={tree_str(m.fit_metrics)} K={getattr(m, 'n_clusters', 0) or 0} "
+            f"E={getattr(m, 'nb_events', 1) if kind_of_model(m) == 'joint' else 1} p={named_tok(m.parameters)} {ext_tokens(E, m)}")
+
+
+ASSERTS_EFFECTIVE = [None]      # set by probe_f30: does this tree compare the non-parameter values of a file (repair F30)?
+
+
+def dag_others(E, settings: dict):
+    """non-parameter DAG nodes the file's `parameters` mention, as `load_parameters` will see them:
+    name|computable|view shape|current shape|assertions effective|current values.  Built from the real classes
+    (metadata of the DAG, and the recomputed value the repaired code compares with)."""
+    from leaspy.models.settings import ModelSettings
+    torch = E.torch
+    try:
+        with core.quiet():
+            rd = ModelSettings(copy.deepcopy(settings))
+            inst = E.model_factory(rd.name, **rd.hyperparameters)
+            inst._initialize_state()
+        ps = rd.parameters
+        if not isinstance(ps, dict):
+            return "_"
+        names = list(inst.dag.sorted_variables_by_type[E.ModelParameter])
+        extra = [k for k in ps if k not in names and k in inst.dag]
+        if not extra:
+            return "_"
+        with core.quiet():
+            try:
+                inst.load_parameters({k: v for k, v in ps.items() if k in names})
+            except Exception:
+                pass
+        out = []
+        for k in extra:
+            try:
+                with core.quiet():
+                    cur = inst.state[k]
+                cur = torch.as_tensor(cur)
+                comp, shp = 1, tuple(cur.shape)
+                vals = fmt_list([fl_tok(float(x), "r") for x in cur.reshape(-1).tolist()]) if cur.dtype.is_floating_point else "_"
+            except Exception:
+                comp, shp, vals = 0, (), "_"
+            view = getattr(inst.dag[k], "shape", None)
+            out.append(f"{k}|{comp}|{'none' if view is None else A.fmt_shape(tuple(view))}|{A.fmt_shape(shp)}|"
+                       f"{int(bool(ASSERTS_EFFECTIVE[0]))}|{vals}")
+        return fmt_list(out, sep=";")
+    except Exception:
+        return "_"
+
+
+def loaded_answer(E, m2, resave: str) -> str:
+    feats = "none" if m2.features is None else fmt_list([hexs(str(f)) for f in m2.features])
+    dimattr = "none" if m2._dimension is None else str(m2._dimension)
+    src = m2.source_dimension
+    cl = A.variable_classes(m2)
+    ps = {}
+    for k in cl["params"]:
+        try:
+            ps[k] = m2.state[k]
+        except Exception:
+            pass       # a parameter the file did not provide
+    pops = [p for p in cl["pop"] if (p + "_mean") in ps]
+    order = ["betas", "log_g", "g", "log_v0", "deltas", "log_rho", "n_log_nu", "zeta"]
+    pops = [p for p in order if p in pops]
+    return (f"ok name={hexs(m2.name)} feats={feats} dimattr={dimattr} src={'none' if src is None else src} "
+            f"noise={m2.obs_models[0].to_string()} K={getattr(m2, 'n_clusters', 0) or 0} "
+            f"E={getattr(m2, 'nb_events', 1) if kind_of_model(m2) == 'joint' else 1} p={named_tok(ps)} pop={fmt_list(pops)} resave={resave}")
+
+
+def real_load_answer(E, settings: dict, tmp: str):
+    """BaseModel.load on a file holding `settings`, then to_dict of the result; returns (answer, model or None)"""
+    p = os.path.join(tmp, "ld.json")
+    with open(p, "w") as fp:
+        json.dump(settings, fp)
+    try:
+        with core.quiet():
+            m2 = E.BaseModel.load(p)
+    except Exception as e:
+        return codec_err(e), None
+    if kind_of_model(m2) is None:
+        return "err:outside", m2
+    try:
+        with core.quiet():
+            q = os.path.join(tmp, "ld2.json")
+            m2.save(q)
+        resave = tree_str(json.load(open(q)))
+    except Exception as e:
+        resave = codec_err(e)
+    return loaded_answer(E, m2, resave), m2
+
+
+def ld_line(E, settings, m2) -> str:
+    ext = ext_tokens(E, m2) if (m2 is not None and kind_of_model(m2) is not None) else EXT_NONE
+    return f"codec ld j={tree_str(settings)} others={dag_others(E, settings)} {ext}"
+
+
+def text_layer_ok(path: str) -> bool:
+    """the file is `json.dumps(tree, indent=2)` of its own tree: the text is a function of the tree and parses back to it"""
+    txt = open(path).read()
+    return json.dumps(json.loads(txt), indent=2) == txt
+
+
+def file_keys_expected(kind: str):
+    base = ["leaspy_version", "name", "features", "dimension", "hyperparameters", "parameters", "obs_models", "fit_metrics"]
+    if kind == "joint":
+        return base + ["source_dimension", "nb_events"]
+    if kind == "mixture_logistic":
+        return base + ["n_clusters", "source_dimension"]
+    return base + ["source_dimension"]
+
+
+class FileCases:
+    """collects `sv` / `ld` request lines while run_case walks through the models"""
+
+    def __init__(self):
+        self.lines, self.meta = [], []
+
+    def add(self, line, cj, want, what):
+        self.lines.append(line)
+        self.meta.append((cj, want, what))
+
+    def flush(self, chk):
+        out = chk.model(self.lines)
+        for (cj, want, what), got in zip(self.meta, out):
+            if got == "err:outside":
+                # the model declares the input outside its domain (lme / constant dispatch, python bools as dimensions, …):
+                # counted, not compared; the generators are written to stay inside, so this stays rare
+                chk.tag("outside_model_domain", f"{cj.get('kind')}:{cj.get('name', cj.get('edits', ''))}"[:60])
+                continue
+            if got != want:
+                chk.disagree(cj, want, got, what)
+        self.lines, self.meta = [], []
+
+
+def file_level(chk, E, FC, case, m, p1, m2, p2, tmp):
+    """(b) one saved model: key set, text layer, `toDict` of the live object, `load` of the file and the re-save"""
+    cj = dict(case)
+    kind = kind_of_model(m)
+    j1 = json.load(open(p1))
+    if list(j1.keys()) != file_keys_expected(kind):
+        chk.impl_failure(cj, f"saved file has keys {list(j1.keys())}, expected {file_keys_expected(kind)}")
+    if not text_layer_ok(p1):
+        chk.impl_failure(cj, "the saved text is not json.dumps(tree, indent=2) of its own tree (text layer assumption)")
+    chk.tag("text_layer_checked", 1)
+    # self-consistency: what was written is what the live state holds (bit for bit through the codec)
+    torch = E.torch
+    for k in A.variable_classes(m)["params"]:
+        v = m.state._values.get(k)          # the state's own storage, not a property that could cache
+        w = j1["parameters"].get(k)
+        if v is None or w is None or tree_str(w) != tree_str(torch.as_tensor(v).tolist()):
+            chk.impl_failure(cj, f"saved value of parameter '{k}' is not the value held by model.state")
+    if j1.get("dimension") != (len(m.features) if m.features is not None else m.dimension):
+        chk.impl_failure(cj, "saved dimension differs from len(features)")
+    if (j1.get("source_dimension") or 0) >= 1:
+        mm = m.state["mixing_matrix"].tolist()
+        if tree_str(j1["parameters"].get("mixing_matrix")) != tree_str(mm):
+            chk.impl_failure(cj, "saved mixing_matrix is not the derived value of the live state")
+    # the hypotheses of the theorems, evaluated by the model on the live object: `loadable` must hold for every model
+    # with feature names, and `canonical` exactly when the real re-save is byte-identical (theorem `resave_identical`
+    # and its converse on real models)
+    loadable = int(m.features is not None)
+    canonical = int(m2 is not None and open(p1, "rb").read() == open(p2, "rb").read())
+    chk.tag("theorem_hypotheses", f"loadable={loadable} canonical={canonical}")
+    FC.add("codec sv " + obj_tokens(E, m), dict(cj, layer="to_dict"), f"{tree_str(j1)} loadable={loadable} canonical={canonical}",
+           "to_dict of the live object (keys, order, nesting, numbers) and the hypotheses `loadable` / `canonical` of the round-trip theorems")
+    if m2 is not None:
+        resave = tree_str(json.load(open(p2)))
+        FC.add(ld_line(E, j1, m2), dict(cj, layer="load"), loaded_answer(E, m2, resave),
+               "BaseModel.load of the saved file (attributes, parameter dtypes / shapes / values, re-saved tree)")
+    else:
+        ans, _ = real_load_answer(E, j1, tmp)
+        FC.add(ld_line(E, j1, None), dict(cj, layer="load"), ans, "BaseModel.load of the saved file (refusal class)")
+
+
+def stored_files(chk, E, FC, tmp):
+    """(b) the files under tests/_data/model_parameters: load, compare, save, load, save (byte equality from round 2 on)"""
+    root = core.REPO / "tests/_data/model_parameters"
+    for f in sorted(root.rglob("*.json")):
+        rel = str(f.relative_to(root))
+        try:
+            settings = json.load(open(f))
+        except Exception as e:
+            chk.tag("stored_unreadable", rel)
+            continue
+        cj = {"kind": "stored", "file": rel}
+        ans, m2 = real_load_answer(E, settings, tmp)
+        FC.add(ld_line(E, settings, m2), cj, ans, "BaseModel.load of a stored file")
+        outcome = ans.split(" ")[0]
+        chk.case(("stored", rel), nontrivial=True, tags={"stored_outcome": outcome})
+        if m2 is None or kind_of_model(m2) is None or " resave=err" in ans:
+            continue
+        # round 2: the re-saved file must be a fixed point of load ∘ save, byte for byte
+        a, b = os.path.join(tmp, "s2.json"), os.path.join(tmp, "s3.json")
+        try:
+            with core.quiet():
+                m2.save(a)
+                m3 = E.BaseModel.load(a)
+                m3.save(b)
+        except Exception as e:
+            chk.impl_failure(cj, f"a model loaded from a stored file cannot be saved and loaded again: {type(e).__name__}: {str(e)[:100]}",
+                             finding="F23" if settings.get("features") is None and isinstance(e, TypeError) else None)
+            continue
+        if open(a, "rb").read() != open(b, "rb").read():
+            chk.impl_failure(cj, "second save of a stored model differs from the first one")
+        if not text_layer_ok(a):
+            chk.impl_failure(cj, "text layer assumption fails on a re-saved stored file")
+        for k, v in m2.parameters.items():
+            if not same_tensor_bits(E.torch, E.torch.as_tensor(m3.parameters[k]), E.torch.as_tensor(v)):
+                chk.impl_failure(cj, f"parameter '{k}' of a stored model changes on save / load")
+
+
+# ------------------------------------------------------------------------------ malformed files
+def mutate_settings(rng, j0: dict):
+    """one or two edits of a valid file, drawn from the list the model describes; returns (settings, labels)"""
+    j = copy.deepcopy(j0)
+    labels = []
+    P = j["parameters"]
+
+    def cur_pnames():
+        return [k for k in P if k != "mixing_matrix" and k in j0["parameters"]]
+
+    def cur_safe_int():
+        return [k for k in ("tau_mean", "tau_std", "xi_std", "xi_mean", "noise_std") if k in P and k in j0["parameters"]]
+
+    def drop_top():
+        k = rng.choice(list(j))
+        del j[k]
+        return f"drop:{k}"
+
+    def unknown_top():
+        k = rng.choice(["foo", "Foo", "noise_model", "loss", "zz_9"])
+        j[k] = rng.choice([1, "x", [1, 2], None, {"a": 1}])
+        return f"add:{k}"
+
+    def upper_key():
+        k = rng.choice([k for k in j if k not in ("name", "parameters", "hyperparameters", "leaspy_version")])
+        j[k.upper()] = j.pop(k)
+        return f"upper:{k}"
+
+    def instance_name():
+        j["instance_name"] = rng.choice(["bar", "", None, "Étude 2"])
+        return "instance_name"
+
+    def name_val():
+        j["name"] = rng.choice([3, None, ["logistic"], j0["name"].upper(), j0["name"].capitalize(), j0["name"] + " ", "", "univariate_logistic", 1.5, True, {}])
+        return "name"
+
+    def features_val():
+        d = j0.get("dimension") or 1
+        j["features"] = rng.choice([3, None, 1.5, [f"a{i}" for i in range(d + 1)], [f"b{i}" for i in range(d)], ["x"], True])
+        return "features"
+
+    def dimension_val():
+        d = j0.get("dimension") or 1
+        j["dimension"] = rng.choice(["3", 3.5, float(d), d + 1, None, d, [d], 1, {}])
+        return "dimension"
+
+    def source_val():
+        d = j0.get("dimension") or 1
+        s = j0.get("source_dimension") or 0
+        j["source_dimension"] = rng.choice(["1", 1.0, 1.5, -1, d, d - 1, None, 0, s, [1], s + 1])
+        return "source_dimension"
+
+    def obs_val():
+        j["obs_models"] = rng.choice([{}, {"y": "foo"}, "gaussian-scalar", "gaussian_diagonal", "GAUSSIAN-DIAGONAL", {"y": "gaussian-scalar"},
+                                      {"y": "Gaussian_Diagonal"}, {"y": 3}, None, {"y": "bernoulli"}, {"Y": "gaussian-diagonal"}, 3, "foo", {"y": None},
+                                      {"y": "gaussian-diagonal"}, "bernoulli", 1.5, True])
+        return "obs_models"
+
+    def ignored_val():
+        k = rng.choice(["fit_metrics", "leaspy_version", "hyperparameters"])
+        j[k] = rng.choice([3, "x", {"a": [1]}, None, [1.5], {"nll_tot": 1.5}])
+        return f"value:{k}"
+
+    def nclusters_val():
+        j["n_clusters"] = rng.choice([1, 2, 3, None, "2", 2.0, 0])
+        return "n_clusters"
+
+    def nbevents_val():
+        j["nb_events"] = rng.choice([1, 1, 2])
+        return "nb_events"
+
+    def params_val():
+        j["parameters"] = rng.choice([None, [], {}, 3, 1.5, True])
+        return "parameters"
+
+    def drop_param():
+        if not P:
+            return "noop"
+        k = rng.choice(list(P))
+        del P[k]
+        return f"drop-param:{k}"
+
+    def unknown_param():
+        k = rng.choice(["zz", "xi", "tau", "t", "y", "nll_attach", "log_g_std", "xi_mean", "v0", "g", "metric", "sources_mean", "sources_std",
+                        "betas", "log_g", "alpha", "rt", "model", "orthonormal_basis"])
+        if k in P:
+            return "noop"
+        P[k] = rng.choice([[1.0], 1.0, 0.5, [0.0, 1.0], [[0.0]], [1.0, 2.0, 3.0], "a", None, [1, 2, 3], 5, [[1.0], []]])
+        return f"extra-param:{k}"
+
+    def param_val():
+        pnames, safe_int = cur_pnames(), cur_safe_int()
+        if not pnames:
+            return "noop"
+        k = rng.choice(pnames)
+        v = j0["parameters"][k]
+        flat = A.nested_canon(v)[1]
+        n = len(flat)
+        choice = rng.choice(["scalarize", "nest", "flat", "longer", "empty", "str", "null", "nulls", "strs", "dict", "ragged", "mixed-depth", "tree", "huge", "overflow"])
+        fl = [float(x) for x in flat]
+        if choice == "scalarize" and n == 1:
+            P[k] = fl[0]
+        elif choice == "nest":
+            P[k] = [v]
+        elif choice == "flat":
+            P[k] = fl
+        elif choice == "longer":
+            P[k] = fl + [1.0]
+        elif choice == "empty":
+            P[k] = []
+        elif choice == "str":
+            P[k] = "a"
+        elif choice == "null":
+            P[k] = None
+        elif choice == "nulls":
+            P[k] = [None] * max(n, 1)
+        elif choice == "strs":
+            P[k] = ["a"] * max(n, 1)
+        elif choice == "dict":
+            P[k] = {"a": 1}
+        elif choice == "ragged":
+            P[k] = [fl[:1], fl[:1] + [0.5]] if n else [[1.0], []]
+        elif choice == "mixed-depth":
+            P[k] = rng.choice([[fl[:1], 0.5], [0.5, fl[:1]]])
+        elif choice == "tree":
+            P[k] = gen_json_value(rng)
+        elif choice == "huge":
+            P[k] = [1e300] * n if not isinstance(v, float) else 1e300
+        elif choice == "overflow" and k in safe_int:
+            P[k] = [2 ** 63] * n
+        else:
+            return "noop"
+        return f"param:{k}:{choice}"
+
+    def int_param():
+        safe_int = cur_safe_int()
+        if not safe_int:
+            return "noop"
+        k = rng.choice(safe_int)
+        n = len(A.nested_canon(j0["parameters"][k])[1])
+        P[k] = rng.choice([[rng.randrange(1, 90) for _ in range(n)], [True] * n, [1, 2.5, True][:n] if n <= 3 else [1] * n])
+        return f"int-param:{k}"
+
+    def mixing_val():
+        if "mixing_matrix" not in P:
+            return "noop"
+        good = j0["parameters"]["mixing_matrix"]
+        P["mixing_matrix"] = rng.choice([[[x + 0.5 for x in r] for r in good], [[x + 0.5 for x in r] for r in good], good, [good],
+                                         "a", [[1.0]], [[1.0], []], None, 5, 5.0, [1.0, 2.0], [[1.0, 2.0], [3.0, 4.0], [5.0, 6.0], [7.0, 8.0], [9.0, 1.0]], [], [[]]])
+        return "mixing_matrix"
+
+    ops = [drop_top, drop_top, unknown_top, upper_key, instance_name, name_val, features_val, dimension_val, source_val, obs_val, ignored_val,
+           params_val, drop_param, drop_param, unknown_param, unknown_param, param_val, param_val, param_val, int_param, mixing_val]
+    if j0.get("name") == "mixture_logistic":
+        ops += [nclusters_val, nclusters_val]
+    if j0.get("name") == "joint":
+        ops += [nbevents_val]
+    for _ in range(1 if rng.random() < 0.7 else 2):
+        if not isinstance(j.get("parameters"), dict):
+            break
+        labels.append(rng.choice(ops)())
+    return j, labels
+
+
+def malformed_files(chk, E, FC, bases: list, n: int, tmp: str):
+    """(c) edited files against the refusal predicate of the model, with canonical error classes"""
+    rng = chk.rng
+    # systematic part: for one file of every kind, every single top-level key dropped / upper-cased, one unknown key
+    todo = []
+    per_kind = {}
+    for b in bases:
+        per_kind.setdefault(b["name"], b)
+    for j0 in per_kind.values():
+        for k in list(j0):
+            j = copy.deepcopy(j0)
+            del j[k]
+            todo.append((j0, j, [f"drop:{k}"]))
+            if k not in ("name", "parameters", "hyperparameters", "leaspy_version"):
+                j = copy.deepcopy(j0)
+                j[k.capitalize()] = j.pop(k)
+                todo.append((j0, j, [f"upper:{k}"]))
+        j = copy.deepcopy(j0)
+        j["noise_model"] = "gaussian_scalar"
+        todo.append((j0, j, ["add:noise_model"]))
+        for k in list(j0["parameters"]):
+            j = copy.deepcopy(j0)
+            del j["parameters"][k]
+            todo.append((j0, j, [f"drop-param:{k}"]))
+    for _ in range(n):
+        j0 = rng.choice(bases)
+        settings, labels = mutate_settings(rng, j0)
+        todo.append((j0, settings, labels))
+    for j0, settings, labels in todo:
+        cj = {"kind": "malformed", "edits": labels, "settings": settings}
+        try:
+            ans, m2 = real_load_answer(E, settings, tmp)
+        except Exception as e:        # json.dump of the edited settings failed: generator problem
+            chk.tag("malformed_generator_problem", type(e).__name__)
+            continue
+        FC.add(ld_line(E, settings, m2), cj, ans, "BaseModel.load of an edited file (acceptance / refusal class / loaded object / re-save)")
+        chk.case(("malformed", tuple(labels), ans.split(" ")[0], j0.get("name")), nontrivial=True,
+                 tags={"malformed_outcome": ans.split(" ")[0], "malformed_edit": labels[0].split(":")[0]})
+
+
 def run(chk: core.Check):
     E = A.env()
     rng = chk.rng
@@ -563,7 +1329,12 @@ def run(chk: core.Check):
                 "short real fit on a mock cohort or random) taken through save -> load -> compare -> save -> load -> save; distinct by "
                 "(kind, instance name, dimension, sources, noise, parameter source, precision); every case is non-trivial except models that "
                 "could not be constructed. The same file content goes to the Lean model; float32 rounding, DAG parameter shapes and the "
-                "ModelName lookup are compared separately.")
+                "ModelName lookup are compared separately. Codec layer: (a) random tensors (6 dtypes, depth <= 4, zero-length axes, transposed / "
+                "strided views, special values) through the real tensor_to_list / json text / val_to_tensor, plus random json values (ragged, mixed, "
+                "null, strings, dicts, big ints) through val_to_tensor with and without a target shape; (b) every saved model: to_dict of the live "
+                "object as a token stream, the hypotheses `loadable` / `canonical` against byte equality of the real re-save, load of the file and "
+                "the re-saved tree; every file under tests/_data/model_parameters; (c) one or two edits of a valid file (dropped / unknown / "
+                "upper-cased keys, wrong types, parameters dropped / unknown / reshaped / ragged / integer) against the refusal class of the model.")
     tmp = tempfile.mkdtemp(prefix="c12_")
     try:
         kinds = ["logistic", "linear", "shared_speed_logistic", "joint", "mixture_logistic"]
@@ -573,6 +1344,7 @@ def run(chk: core.Check):
         fixed = [
             dict(src="fit", kind="logistic", which="multi", d=3, s=2, noise=None, rename=False, name="logistic", give_dim=False, n_iter=8, seed=0, hyp={}),
             dict(src="fit", kind="logistic", which="multi", d=3, s=1, noise="gaussian-scalar", rename=True, name="my_model", give_dim=True, n_iter=6, seed=1, hyp={}),
+            dict(src="fit", kind="logistic", which="multi", d=3, s=1, noise="gaussian-diagonal", rename=False, name="logistic", give_dim=True, n_iter=6, seed=6, hyp={}, refit=4),
             dict(src="fit", kind="linear", which="uni", d=1, s=0, noise=None, rename=False, name="linear", give_dim=False, n_iter=6, seed=2, hyp={}),
             dict(src="fit", kind="shared_speed_logistic", which="tiny", d=4, s=2, noise="gaussian-diagonal", rename=False, name="shared_speed_logistic", give_dim=True, n_iter=6, seed=3, hyp={}),
             dict(src="fit", kind="joint", which="joint", d=3, s=1, noise="gaussian-diagonal", rename=False, name="joint", give_dim=True, n_iter=6, seed=4, hyp={}),
@@ -583,12 +1355,25 @@ def run(chk: core.Check):
         cases += [gen_random_case(rng, kinds) for _ in range(n_rand)]
         reqs, answers, values, names = [], [], [], []
         specs = {}
+        FC, bases = FileCases(), []
+        probe_f30(chk, E, tmp)
         for case in cases:
-            req, ans = run_case(chk, E, case, tmp)
+            req, ans = run_case(chk, E, case, tmp, FC, bases)
             reqs.append(req)
             answers.append(ans)
             collect_side(E, case, req, values, specs, names)
         compare(chk, cases, reqs, answers)
+        # --- codec layer (Model/Codec.lean): tensor codec, whole files, stored files, edited files
+        n_t, n_v, n_mal = (250, 250, 260) if chk.tier == "quick" else (1500, 1500, 1500)
+        codec_tensor_cases(chk, E, n_t, n_v)
+        stored_files(chk, E, FC, tmp)
+        uniq = {}
+        for b in bases:
+            uniq.setdefault((b["name"], b.get("dimension"), b.get("source_dimension"), json.dumps(b.get("obs_models"))), b)
+        chk.tag("malformed_bases", len(uniq))
+        if uniq:
+            malformed_files(chk, E, FC, list(uniq.values()), n_mal, tmp)
+        FC.flush(chk)
         # DAG shapes for a grid of hyperparameters
         for kind in kinds:
             for d in (1, 2, 3, 5):
@@ -612,13 +1397,40 @@ def run(chk: core.Check):
 def replay(chk: core.Check, payload):
     E = A.env()
     case = payload.get("case") or (payload.get("disagreements") or [{}])[0].get("case")
+    if case and case.get("kind") in ("malformed", "stored", "value", "tensor", "n32"):
+        replay_codec(chk, E, case)
+        return
     if not case or "src" not in case:
         chk.note("replay file has no model case (side check disagreement): re-running the side checks only")
         run(chk)
         return
     tmp = tempfile.mkdtemp(prefix="c12_")
     try:
-        req, ans = run_case(chk, E, case, tmp)
+        FC = FileCases()
+        probe_f30(chk, E, tmp)
+        req, ans = run_case(chk, E, {k: v for k, v in case.items() if k != "layer"}, tmp, FC)
         compare(chk, [case], [req], [ans])
+        FC.flush(chk)
+    finally:
+        shutil.rmtree(tmp, ignore_errors=True)
+
+
+def replay_codec(chk, E, case):
+    from leaspy.models.utilities import val_to_tensor
+    tmp = tempfile.mkdtemp(prefix="c12_")
+    try:
+        FC = FileCases()
+        probe_f30(chk, E, tmp)
+        if case["kind"] in ("malformed", "stored"):
+            settings = case.get("settings")
+            if settings is None:
+                settings = json.load(open(core.REPO / "tests/_data/model_parameters" / case["file"]))
+            ans, m2 = real_load_answer(E, settings, tmp)
+            FC.add(ld_line(E, settings, m2), case, ans, "BaseModel.load (replay)")
+            FC.flush(chk)
+        else:
+            chk.note("tensor / value / rounding case: re-running the codec cases with the same seed")
+            codec_tensor_cases(chk, E, 250, 250)
+        chk.case(("replay", case["kind"]), nontrivial=True)
     finally:
         shutil.rmtree(tmp, ignore_errors=True)
